@@ -319,7 +319,7 @@ func C04(c *vk.Ctx) {
 		{Mode: "crl_only", Sig: "verify", Strict: true, Fetch: "actively", Disk: false, TrustA: false, Conf: "none", Ocsp: "noaia"},
 		{Mode: "crl_only", Sig: "verify", Strict: false, Fetch: "actively", Disk: true, TrustA: true, Conf: "none", Ocsp: "noaia"},
 	}
-	hubCampaign(c, hcfgs, c.Pick(1400, 30000), c.Pick(1, 6), 60, predC04hub)
+	hubCampaign(c, hcfgs, c.Pick(1400, 30000), allDownEdges, 60, predC04hub)
 	c.Set("traces_validated_against_impl", int64(n))
 	c.Set("exhaustive", c.Thorough())
 	c.Set("spec", "Authz.tla: the decision table signer(7) x AKI form(6) x keyUsage(3) x algorithm x mutation site(5); OnlyEntitled (mechanism in force => requirement allows it) and Complete proved on every row; CrlReader.tla DigestExact for 'exactly the signed portion'")
